@@ -273,6 +273,8 @@ def write_foreign(f, path, strings=False, flavour='NETCDF4'):
                 data.size > 0 and np.isfinite(data).all() and \
                 'scale_factor' not in atts and 'add_offset' not in atts
             if pack:
+                # (a packed file states missing cells by _FillValue alone)
+                atts.pop('missing_value', None)
                 lo, hi = float(data.min()), float(data.max())
                 sc = np.float32((hi - lo) / 60000.) if hi > lo else \
                     np.float32(1)
